@@ -101,8 +101,9 @@ func c05History(kind string, traj []int, hist []int) (sig, msg string, updates i
 		}
 		tok, ok := l.Acquire(ctx)
 		if !ok {
-			// the scripted estimate may be 1 with a token leaked by nobody: cannot happen sequentially
-			return kind + "/refused", fmt.Sprintf("completion %d: acquire refused with nothing held (limit %d)", i, stratView{s: strat}.Limit()), updates
+			// refused with nothing held: an admission defect (C01's subject), not a stale limit — the
+			// enforced limit is never below 1. The history cannot go on; C05 has nothing to say about it
+			return "", "", updates
 		}
 		vrt.ManualClock += dur
 		before := len(lim.Samples)
